@@ -245,4 +245,86 @@ theorem C18_request_due (e : Env) (k : Kind) (d : Device) :
   cases k <;>
     simp [ready, should, nRequested, lastRequested, Option.isNone_iff_eq_none, and_assoc]
 
+/-- the NAME bits `FindDeviceByIDs` compares: manufacturer code = bits 21..31, unique number = bits 0..20 of the
+    NAME; 0xffff / 0xffffffff (N/A) is a wildcard -/
+def idsMatch (man uniq name : Nat) : Prop :=
+  (man = 0xffff ∨ manufacturerCode name = man) ∧ (uniq = 0xffffffff ∨ uniqueNumber name = uniq)
+
+/-- **C18, lookup by manufacturer code and unique number.** In every reachable state `FindDeviceByIDs` does not
+fault; what it returns is an entry of the list (found under its own source) whose NAME matches, and it returns
+nothing only if both arguments are N/A or no entry of the list matches. -/
+theorem C18_find_by_ids (h : List (Env × Msg)) (man uniq : Nat) :
+    ∃ s r, run State.init h = .ok s ∧ findByIDs s man uniq = .ok r ∧
+      (∀ id, r = some id → ∃ d, s.heap id = some d ∧ findBySource s d.source = some id ∧ idsMatch man uniq d.name ∧
+        ¬ (man = 0xffff ∧ uniq = 0xffffffff)) ∧
+      (r = none → (man = 0xffff ∧ uniq = 0xffffffff) ∨
+        ∀ src id d, findBySource s src = some id → s.heap id = some d → ¬ idsMatch man uniq d.name) := by
+  obtain ⟨s, hs, hi⟩ := run_spec h Inv.init
+  by_cases hna : man = 0xffff ∧ uniq = 0xffffffff
+  · exact ⟨s, none, hs, by simp [findByIDs, hna], (by intro id h; cases h), fun _ => Or.inl hna⟩
+  · obtain ⟨r, hr, h1, h2⟩ := findLoop_entries hi (fun d => (man == 0xffff || manufacturerCode d.name == man) &&
+      (uniq == 0xffffffff || uniqueNumber d.name == uniq)) s.maxDevices 0
+    refine ⟨s, r, hs, by simp only [findByIDs, hna, if_false]; exact hr, ?_, ?_⟩
+    · intro id hid
+      obtain ⟨d, hd, hf, hp, _, _⟩ := h1 id hid
+      refine ⟨d, hd, hf, ?_, hna⟩
+      simpa [idsMatch] using hp
+    · intro hn
+      refine Or.inr ?_
+      intro src id d hf hd hm
+      obtain ⟨_, _, hmax, _⟩ := devAt_src hi.st (show devAt s src = some d by
+        unfold findBySource at hf
+        by_cases h254 : src ≥ MaxBusDevices
+        · simp [h254] at hf
+        · simp only [h254, if_false] at hf; simp [devAt, hf, hd])
+      have := h2 hn src id d (Nat.zero_le _) (by omega) hf hd
+      have ht : ((man == 0xffff || manufacturerCode d.name == man) &&
+          (uniq == 0xffffffff || uniqueNumber d.name == uniq)) = true := by simpa [idsMatch] using hm
+      rw [ht] at this; cases this
+
+/-- **C18, lookup by manufacturer code and product code.** `FindDeviceByProduct(man, code, src)` searches behind
+`src` when `src` is below the highest source ever used + 1 (`maxDevices`), from the start otherwise (`src = 0xff`).
+In every reachable state it does not fault; what it returns is an entry of the searched range whose NAME carries
+`man` and whose stored product code is `code`; it returns nothing only if an argument is N/A or no entry of the
+range matches. -/
+theorem C18_find_by_product (h : List (Env × Msg)) (man code src : Nat) :
+    ∃ s r, run State.init h = .ok s ∧ findByProduct s man code src = .ok r ∧
+      (∀ id, r = some id → ∃ d, s.heap id = some d ∧ findBySource s d.source = some id ∧
+        manufacturerCode d.name = man ∧ d.prod.productCode = code ∧ (src < s.maxDevices → src < d.source) ∧
+        man ≠ 0xffff ∧ code ≠ 0xffff) ∧
+      (r = none → man = 0xffff ∨ code = 0xffff ∨
+        ∀ j id d, findBySource s j = some id → s.heap id = some d → (src < s.maxDevices → src < j) →
+          ¬ (manufacturerCode d.name = man ∧ d.prod.productCode = code)) := by
+  obtain ⟨s, hs, hi⟩ := run_spec h Inv.init
+  by_cases hna : man = 0xffff ∨ code = 0xffff
+  · refine ⟨s, none, hs, by simp [findByProduct, hna], (by intro id h; cases h), fun _ => ?_⟩
+    rcases hna with h1 | h1
+    · exact Or.inl h1
+    · exact Or.inr (Or.inl h1)
+  · obtain ⟨r, hr, h1, h2⟩ := findLoop_entries hi
+      (fun d => manufacturerCode d.name == man && d.prod.productCode == code)
+      (s.maxDevices - (if src < s.maxDevices then src + 1 else 0)) (if src < s.maxDevices then src + 1 else 0)
+    refine ⟨s, r, hs, by simp only [findByProduct, hna, if_false]; exact hr, ?_, ?_⟩
+    · intro id hid
+      obtain ⟨d, hd, hf, hp, hlo, _⟩ := h1 id hid
+      have hp' : manufacturerCode d.name = man ∧ d.prod.productCode = code := by simpa using hp
+      refine ⟨d, hd, hf, hp'.1, hp'.2, ?_, fun h => hna (Or.inl h), fun h => hna (Or.inr h)⟩
+      intro hlt
+      simp only [hlt, if_true] at hlo
+      omega
+    · intro hn
+      refine Or.inr (Or.inr ?_)
+      intro j id d hf hd hrange hm
+      obtain ⟨_, _, hmax, _⟩ := devAt_src hi.st (show devAt s j = some d by
+        unfold findBySource at hf
+        by_cases h254 : j ≥ MaxBusDevices
+        · simp [h254] at hf
+        · simp only [h254, if_false] at hf; simp [devAt, hf, hd])
+      have hlo : (if src < s.maxDevices then src + 1 else 0) ≤ j := by
+        by_cases hlt : src < s.maxDevices
+        · simp only [hlt, if_true]; have := hrange hlt; omega
+        · simp only [hlt, if_false]; omega
+      have := h2 hn j id d hlo (by split <;> omega) hf hd
+      simp [hm.1, hm.2] at this
+
 end N2k.C18
